@@ -52,6 +52,13 @@ def hard_difference(iso_exons, aligned_exons):
         for e in iso_exons:
             if e[1] - e[0] + 1 >= 150 and ri[0] <= e[0] and e[1] <= ri[1]:
                 return True
+    # a read end lying >= 300 bp inside an isoform intron (>= 100 bp before its other end) while the terminal block of the read
+    # covers the isoform exon next to that intron: a partly retained intron
+    for ii in i_in:
+        if ii[0] + 300 <= re_ <= ii[1] - 100 and aligned_exons[-1][0] < ii[0] - 30:
+            return True
+        if ii[0] + 100 <= rs <= ii[1] - 300 and aligned_exons[0][1] > ii[1] + 30:
+            return True
     # an end >= 400 bp outside the isoform
     if rs <= iso_exons[0][0] - 400 or re_ >= iso_exons[-1][1] + 400:
         return True
